@@ -478,10 +478,6 @@ auto a_num_u8_int(Case const& c) -> std::string { return typed_numeric<K, std::u
 template <typename K>
 auto a_num_i8_int(Case const& c) -> std::string { return typed_numeric<K, std::int8_t, int>(c); }
 template <typename K>
-auto a_num_i16_long(Case const& c) -> std::string { return typed_numeric<K, std::int16_t, long>(c); }
-template <typename K>
-auto a_num_u16_unsigned(Case const& c) -> std::string { return typed_numeric<K, std::uint16_t, unsigned>(c); }
-template <typename K>
 auto a_num_u32_u64(Case const& c) -> std::string { return typed_numeric<K, std::uint32_t, std::uint64_t>(c); }
 template <typename K>
 auto a_num_float_double(Case const& c) -> std::string { return typed_numeric<K, float, double>(c); }
@@ -751,8 +747,6 @@ auto table() -> std::vector<Entry> const&
         C06_REG(a_num_u8_int, "numeric_uint8_into_int", 0, KP),
         C06_REG(a_num_u8_int, "numeric_uint8_into_int", 0, KI),
         C06_REG(a_num_i8_int, "numeric_int8_into_int", 0, KP),
-        C06_REG(a_num_i16_long, "numeric_int16_into_long", 0, KP),
-        C06_REG(a_num_u16_unsigned, "numeric_uint16_into_unsigned", 0, KP),
         C06_REG(a_num_u32_u64, "numeric_uint32_into_uint64", 0, KP),
         C06_REG(a_num_float_double, "numeric_float_into_double", 0, KP),
         C06_REG(a_iter_helpers, "next_prev_advance_distance", D_MID, KP),
